@@ -56,7 +56,8 @@ CHECKS = {
     "C01": dict(
         technique="Lean 4 proof (byte-level state machine = token interpreter, by induction over all byte strings) + differential whole-file loads vs token spec + Spec.run",
         text="Lean theorem C01_lexing: the model of parse_body equals the token-level interpreter on every byte string (so white space, LF/CRLF, blank lines and token "
-             "placement are irrelevant and only the listed token classes produce events); C01_time_tokens; C01_chars (table regenerated from the code). The full model "
+             "placement are irrelevant and only the listed token classes produce events); C01_time_tokens; C01_chars (table regenerated from the code); C01_load_is_store_run / C01_time_table: a successful "
+             "single-threaded load is the store run on the operations its tokens denote and its time table is strictPrefixMax of the timestamp tokens. The full model "
              "(parse_body -> VcdEncoder with id_to_int / hashed id map -> Store -> load) is executable and compared with the real loader on generated files covering the quantifier; "
              "the oracle is the token interpreter composed with Spec.run (canon).",
         design_ref="DESIGN.md section 5 / C01",
@@ -67,7 +68,7 @@ CHECKS = {
     "C14": dict(
         technique="Lean 4 proof (stop-position irrelevance of the body parser by induction) + differential run of 14 entry-point combinations on generated and corpus files",
         text="Lean theorems C14_stop_irrelevant / C14_reader_eq_mmap: the stream entry point (stop = file length) and the memory-mapped entry point (stop = len-1) of the VCD body parser "
-             "produce the same events and encoder for every body. All entry points of the public API (file / Cursor / BufReader, one-call and two-phase, multi_thread on/off, "
+             "produce the same result (the whole encoder, or the same error class) for every body. All entry points of the public API (file / Cursor / BufReader, one-call and two-phase, multi_thread on/off, "
              "progress counter on/off) are run on generated VCDs and the repo's VCD/FST/GHW corpus and compared pairwise, including the reported body length.",
         design_ref="DESIGN.md section 5 / C14",
         note="Partial by nature: mmap / BufReader / Cursor / ProgressTracker semantics and file I/O are runtime behaviour covered by the differential run only; FST and GHW entry points have no model "
@@ -76,11 +77,11 @@ CHECKS = {
     "C15": dict(
         technique="Lean 4 proof (prefix monotonicity of the event stream by induction) + exhaustive truncation offsets of generated files, model vs code",
         text="Lean theorems C15_prefix_events / C15_boundary_exact: for every body and every cut, the events of the prefix are a prefix of the complete file's events up to one last event from the cut token, "
-             "exactly a prefix at line boundaries; the parser is total. Every truncation offset of generated bodies is loaded (under catch_unwind) and the C15 relation is evaluated on the real loads; the Lean model "
+             "exactly a prefix at line boundaries; the parser is total; C15_time_table_prefix lifts this through VcdEncoder / Encoder::time_change / finish to the loaded time table, C15_waveform_agrees_partial to the abstract waveform. Every truncation offset of generated bodies is loaded (under catch_unwind) and the C15 relation is evaluated on the real loads; the Lean model "
              "predicts ok / err / panic for each cut and must agree. At line-boundary cuts the loaded waveform itself must equal the denotation of the lines present (token interpreter of C01 + Spec.run on the prefix).",
         design_ref="DESIGN.md section 5 / C15",
-        note="`never panics` is false for the current code (known finding F7): the model reproduces the panics and the check verifies the implementation panics exactly there. The lift from events to the loaded "
-             "waveform relies on the store correspondence (C04). Hangs cannot occur in the model (structural recursion); a hang of the real loader would stall the harness and be reported as reply-count mismatch.",
+        note="`never panics` is false for the current code (known finding F7): the model reproduces the panics and the check verifies the implementation panics exactly there. The lift of the time table to the store is proved; the lift of the value changes "
+             "is proved for the abstract waveform and relies on the store correspondence (C04) for the stored bytes; when the cut token is itself a new-maximum timestamp the changes AT the last common step are covered by the differential run only. Hangs cannot occur in the model (structural recursion); a hang of the real loader would stall the harness and be reported as reply-count mismatch.",
     ),
     "C03": dict(
         technique="Lean 4 proof (chunk arithmetic, hand-over exit only truncates, append concatenates tables) + differential run over every boundary alignment against the Lean model of the chunked parser",
